@@ -170,7 +170,7 @@ def event_kind(desc_case_line):
 
 
 ABS_PROPS = {"C01", "C02", "C03", "C04", "C05", "C06", "C09"}
-CFG_PROPS = {"C01", "C02", "C03", "C08", "C11"}   # membership-changing histories against Abs/CfgRaft.v
+CFG_PROPS = {"C01", "C02", "C03", "C04", "C06", "C08", "C09", "C11"}   # histories with membership changes, crashes and snapshots against Abs/CfgRaft.v
 ABS_CODES = {1: "no projection listed for the event's node", 2: "observed projections differ from the abstract state after the event",
              10: "election started by node 0", 11: "election started by a node that is leader",
              20: "vote granted to candidate 0", 21: "vote granted for an election nobody started", 22: "vote granted although the voter "
@@ -357,7 +357,7 @@ def run_node(pid, tier, seed):
                         "compaction and snapshot installation are included)" % (abs_cov["abs_histories"], abs_cov["abs_events"]))
     cov.update(cfg_cov)
     if cfg_cov:
-        cov["rule"] += ("; abstract tie under membership changes: %d whole-cluster histories (%d events; with crashes and restarts, without snapshots) of the real nodes "
+        cov["rule"] += ("; abstract tie under membership changes: %d whole-cluster histories (%d events; membership changes, crashes and restarts, snapshots, compaction and snapshot installation) of the real nodes "
                         "were checked by Abs/CfgExec.v to be runs of the abstract protocol with membership changes in the log (Abs/CfgRaft.v) that the "
                         "theorems of Props/C08_abs.v are proved about" % (cfg_cov["cfg_histories"], cfg_cov["cfg_events"]))
     return {"violations": out, "coverage": cov, "tie_broken": broken}
@@ -381,7 +381,7 @@ reg_node("C01", "Theorems: election safety for every reachable state of the abst
          "vote per (term, voter), every elected node has a majority of recorded votes; two majorities meet. Tie: the node model's vote handlers "
          "(on_vote_request, start_election, on_vote_result, restart) are compared event by event with the real handlers; monitor: two nodes "
          "leader in one term on the simulated cluster.",
-         ["Abs/Votes.v and Abs/Raft.v have a static voter set; election safety under membership changes is cfg_election_safety (Props/C08_abs.v, model Abs/CfgRaft.v: membership changes, flush, crash; no snapshots)"],
+         ["Abs/Votes.v and Abs/Raft.v have a static voter set; election safety under membership changes is cfg_election_safety (Props/C08_abs.v, model Abs/CfgRaft.v: membership changes, flush, crash, snapshot installation)"],
          extra_props=["AbsTie.v", "C20.v", "C08_abs.v", "CfgTie.v"])
 
 
@@ -472,16 +472,16 @@ reg_node("C06", "Theorems (node level, every state/input): the commit point the 
          "flushing the leader's own log; a follower answers success only after flushing what it appended and commits only covered, leader-committed, "
          "current-term entries. Cluster-level theorem (abstract protocol): see Props/C06.v when present. Monitor: at every commit advance on the "
          "simulated cluster, count the voters that hold the entry flushed.",
-         ["NoDup node ids in a configuration (Go map)"], extra_props=["AbsTie.v"])
+         ["NoDup node ids in a configuration (Go map)"], extra_props=["AbsTie.v", "CfgTie.v"])
 reg_node("C08", "Theorems: every configuration derived by one action is adjacent (voter sets differ in at most one node) and majorities of adjacent "
          "configurations intersect; a submitted configuration is rejected unless the previous one is committed, an own-term entry is committed, no "
          "voting right changes directly, no node vanishes, new nodes are non-voters and a stable voter remains; actions are carried out only when "
          "canChangeConfig holds (incl. own-term commit: the pre-repair guard is refuted); followers adopt the newest configuration entry. "
          "Cluster level (Props/C08_abs.v on Abs/CfgRaft.v): election safety, log matching, leader completeness, state-machine safety in every "
          "reachable state of the protocol with single-voter membership changes in the log; the variant without the own-term-commit guard is refuted. "
-         "Abs/CfgRaft.v also has the durable prefix, flushing and crash/restart (cfg_commit_le_flushed, cfg_committed_survives_crash) but no snapshots; "
+         "Abs/CfgRaft.v also has the durable prefix, flushing, crash/restart and snapshot installation (cfg_commit_le_flushed, cfg_committed_survives_crash); "
          "it is tied to the code by the node-level guard theorems plus the per-event correspondence and by the history checker Abs/CfgExec.v "
-         "(membership-changing histories with crashes observed on the real nodes must be runs of it).",
+         "(histories with membership changes, crashes and snapshots observed on the real nodes must be runs of it).",
          ["NoDup node ids; requests carry consecutive entries"], extra_props=["C08_abs.v", "CfgTie.v"])
 
 
@@ -544,7 +544,7 @@ reg_node("C02", "Theorems: (abstract protocol, Props/C02.v when present) leader 
          "interleaving; (node level, Props/C02_rules.v) a vote is newly cast only for an at-least-as-up-to-date log, a follower truncates only "
          "from the first conflicting index, holds every request entry as sent, the follower commit index moves only to covered current-term "
          "entries, a leader's log is append-only. Monitors: committed entries never differ between nodes, every leader holds all committed entries.",
-         ["Abs/Raft.v (crash, flush, snapshots) has a static voter set; Abs/CfgRaft.v (membership changes in the log, durable prefix, crash/restart; Props/C08_abs.v) has no snapshot step"], extra_props=["C02_rules.v", "AbsTie.v", "C08_abs.v", "CfgTie.v"])
+         ["Abs/Raft.v (crash, flush, snapshots) has a static voter set; Abs/CfgRaft.v (Props/C08_abs.v) has membership changes in the log, durable prefix, crash/restart and snapshot installation"], extra_props=["C02_rules.v", "AbsTie.v", "C08_abs.v", "CfgTie.v"])
 reg_node("C03", "Theorems: (abstract protocol, Props/C03.v when present) committed prefixes of any two nodes are prefix-related; (node level) the "
          "state machine is fed the entries after its position up to the commit index contiguously, in order, once (apply_is_contiguous, "
          "queue_applied_in_order). Monitor: state-machine command lists of all nodes are pairwise prefix-related after every event.",
@@ -552,7 +552,7 @@ reg_node("C03", "Theorems: (abstract protocol, Props/C03.v when present) committ
 reg_node("C04", "Theorems: (abstract protocol, Props/C04.v) log matching for any two logs of any reachable state and leader append-only; (node level) "
          "requests are faithful log slices with the right prevLogTerm, followers hold request entries exactly as sent, leaders never rewrite "
          "their log. Monitor: (index, term) -> (type, payload, predecessor term) stays a function over every log ever dumped.",
-         [], extra_props=["C02_rules.v", "AbsTie.v"])
+         [], extra_props=["C02_rules.v", "AbsTie.v", "CfgTie.v"])
 reg_node("C07", "Theorems (node level): non-leaders reject definitively and change nothing; a transferring/demoted leader rejects the whole batch; "
          "accepted updates are appended in batch order at the next indices with the leader's term; tasks are released only as a committed prefix "
          "of the queue (so a read/barrier reflects every update accepted before it); an update's reply is the state machine's result for the entry "
@@ -563,7 +563,7 @@ reg_node("C09", "Theorems (node level): apply is contiguous; a snapshot never ex
          "the request writer yields log entries or asks for a snapshot; installation resets log and state machine position together. PARTIAL: the "
          "instant at which a goroutine touches mapped memory is outside the model (scenario + live driver cover it). Cluster level: the abstract "
          "protocol includes snapshot installation (log replaced by a committed prefix or kept; compaction invisible) and its safety theorems "
-         "hold with it; observed histories with snapshots are checked to be runs of it (Props/AbsTie.v).", [], extra_props=["AbsTie.v"])
+         "hold with it; observed histories with snapshots are checked to be runs of it (Props/AbsTie.v).", [], extra_props=["AbsTie.v", "CfgTie.v"])
 reg_node("C12", "Theorems: the snapshot task captures state-machine position and committed configuration at the same instant and publishes exactly "
          "that label, only if newer; the captured configuration is the one in force at the label's index (given the bookkeeping invariant); after "
          "restart the membership is the newest configuration entry above the snapshot, else the label; installation adopts the label.", [])
